@@ -155,6 +155,12 @@ func (prop) Work(c core.Case) core.Result {
 	if n := alternations(cd.A.Files, cd.A.Root); n >= 2 {
 		feat += fmt.Sprintf("+alt%d", n)
 	}
+	if strings.Contains(all, "{% defer") {
+		feat += "+defer"
+	}
+	if strings.Contains(all, "{% panic(") {
+		feat += "+recovered-panic"
+	}
 	if strings.Contains(all, "{% import") && cd.Rel != "import-vs-local" {
 		feat += "+lib"
 	}
